@@ -231,12 +231,42 @@ def b_gather(en, st, a, kw):
         if isinstance(star, SX.PyMapped):
             return [(st, star)]
         t = en.read(star, st)
+        # a list of coroutine objects (un-awaited call results): gather runs them all; with return_exceptions the failures are values
+        capture = 'return_exceptions' in kw
+        if capture:
+            return [(st.assume(V.is_List(t)), V.List(gather_outcomes(V.items(t))))]
         return [(st, t)]
     ts = []
     for x in items:
         t, st = en.term(x, st)
         ts.append(t)
     return [(st, V.List(mklist(*ts)))]
+
+
+gather_outcomes = z3.RecFunction('gather_outcomes', VL, VL)       # positional: value or (return_exceptions=True) exception of each awaitable
+_gl = z3.Const('gl_', VL)
+
+
+def _outcome(c):
+    co = z3.And(V.is_Obj(c), V.ocls(c) == SX.table().cid['coroutine'])
+    return z3.If(co, z3.If(SX.coro_raises(c), SX.coro_exc(c), SX.coro_value(c)), c)
+
+
+z3.RecAddDefinition(gather_outcomes, [_gl], z3.If(VL.is_nil(_gl), VL.nil, VL.cons(_outcome(VL.hd(_gl)), gather_outcomes(VL.tl(_gl)))))
+
+
+def _gather_lemmas(e, n):
+    """gather_outcomes is a positional map (induction on the list)"""
+    if n == 'gather_outcomes':
+        return [length(e) == length(e.arg(0))]
+    if n == 'nth' and z3.is_app(e.arg(0)) and e.arg(0).decl().name() == 'gather_outcomes':
+        l, k = e.arg(0).arg(0), e.arg(1)
+        return [z3.Implies(z3.And(k >= 0, k < length(l)), e == _outcome(nth(l, k)))]
+    return []
+
+
+from .values import LEMMA_HOOKS as _LH   # noqa: E402
+_LH.append(_gather_lemmas)
 
 
 def b_iscoroutinefunction(en, st, a, kw):
